@@ -116,11 +116,17 @@ pub fn gen_multi_case(src: &mut Src, o: &MultiOpts) -> MultiCase {
     }
     let alpha_ecs: Vec<usize> = ec_info.iter().enumerate().filter(|(_, e)| matches!(e.ty, EcTypeSpec::Alpha { .. })).map(|(i, _)| i).collect();
     let animation = if o.allow_animation && src.chance(128) { Some(AnimationSpec { tps_numerator: 10, tps_denominator: 1, num_loops: 0, have_timecodes: src.chance(40) }) } else { None };
+    // a third of the cases declare 16-bit buffers (late decision: drawn from the tail seed); the encoder then keeps
+    // every stage within the signed 16-bit range
+    let narrow = src.tail_fork_bytes(4)[3] % 3 == 0;
+    if narrow {
+        classes.push("buffers:16bit".into());
+    }
     let ih = ImageHeaderSpec {
         width: w as u32,
         height: h as u32,
         bit_depth: BitDepthSpec::Int { bits: 8 },
-        modular_16bit_buffers: false,
+        modular_16bit_buffers: narrow,
         ec_info: ec_info.clone(),
         xyb_encoded: false,
         animation: animation.clone(),
@@ -369,7 +375,7 @@ pub fn gen_multi_case(src: &mut Src, o: &MultiOpts) -> MultiCase {
             lf_groups_per_col: (fg.num_lf_groups / fg.lf_groups_per_row) as usize,
             pass_shifts: pass_shifts_of(&fh.passes),
         };
-        let mo = ModularOpts { bit_depth: 8, range_limit: 1 << 31, allow_transforms: true, allow_squeeze: true, allow_rct: true, allow_palette: true, allow_lz77: true, allow_multiplier: false, amplitude: 64 };
+        let mo = ModularOpts { bit_depth: 8, range_limit: if narrow { 1 << 15 } else { 1 << 31 }, allow_transforms: true, allow_squeeze: true, allow_rct: true, allow_palette: true, allow_lz77: true, allow_multiplier: false, amplitude: 64 };
         let mut mo = mo;
         if std::env::var("VERIF_NOTX_FRAME").ok().and_then(|v| v.parse::<usize>().ok()) == Some(fi) {
             mo.allow_rct = std::env::var("VERIF_KEEP_RCT").is_ok();
